@@ -465,6 +465,13 @@ def run(pid, tier, replay=None):
     B = 120
     for k in range(0, len(traces), B):
         judge(chk, traces[k:k + B], labels[k:k + B], consts)
+    if pid in ("C09", "C12"):
+        # ---- the network thread's delivery handling interleaved with the miner's found-block handling, line by line (Handover)
+        from checks import handover
+        sk.apply_cfg(cfg)
+        rc = handover.stage(chk, quick, rng, pid, cfg, keys, build_universe)
+        if rc:
+            return rc
     if pid == "C12":
         # ---- the broadcast of a found block comes from the miner's thread: the connection's send queue under two threads (SendPath)
         from checks import sendpath
